@@ -3,7 +3,7 @@
     lemma proved elsewhere, with [Print Assumptions] beneath.  bin/pqv
     re-checks every statement with [Check (name : forall ..., statement)] and
     every [Print Assumptions] on each run. *)
-From PQV Require Import AbsPQProofs AbsCostProofs ListProofs IterProofs UnwindProofs HashIndep Final.
+From PQV Require Import AbsPQProofs AbsCostProofs ListProofs IterProofs UnwindProofs HashIndep GhostIndep Final.
 From PQV Require Export PropSpec.
 
 (* C01 *)
@@ -310,3 +310,28 @@ Print Assumptions C10_unwind_run.
 Theorem C18_run : forall (I P : Type) (keq : I -> I -> bool) (ple : P -> P -> bool) (peq : P -> P -> bool) (alloc_limit : N), C18_run_stmt keq ple peq alloc_limit.
 Proof. intros; apply @HashIndep.C18_run_thm. Qed.
 Print Assumptions C18_run.
+
+(* C17 *)
+Theorem C17_ghost_indep_step : forall (I P : Type) (keq : I -> I -> bool) (hash : I -> N) (ple : P -> P -> bool) (peq : P -> P -> bool) (alloc_limit : N), ghost_indep_step_stmt keq hash ple peq alloc_limit.
+Proof. intros; apply @GhostIndep.ghost_indep_step. Qed.
+Print Assumptions C17_ghost_indep_step.
+
+(* C17 *)
+Theorem C17_ghost_indep_run : forall (I P : Type) (keq : I -> I -> bool) (hash : I -> N) (ple : P -> P -> bool) (peq : P -> P -> bool) (alloc_limit : N), ghost_indep_run_stmt keq hash ple peq alloc_limit.
+Proof. intros; apply @GhostIndep.ghost_indep_run. Qed.
+Print Assumptions C17_ghost_indep_run.
+
+(* C17 *)
+Theorem C17_cap_ops_invisible : forall (I P : Type) (keq : I -> I -> bool) (hash : I -> N) (ple : P -> P -> bool) (peq : P -> P -> bool) (alloc_limit : N), cap_ops_invisible_stmt keq hash ple peq alloc_limit.
+Proof. intros; apply @GhostIndep.cap_ops_invisible. Qed.
+Print Assumptions C17_cap_ops_invisible.
+
+(* C14 *)
+Theorem C14_clone_is_copy : forall (I P : Type) (keq : I -> I -> bool) (hash : I -> N) (ple : P -> P -> bool) (peq : P -> P -> bool) (alloc_limit : N), cap_ops_invisible_stmt keq hash ple peq alloc_limit.
+Proof. intros; apply @GhostIndep.cap_ops_invisible. Qed.
+Print Assumptions C14_clone_is_copy.
+
+(* C14 *)
+Theorem C14_clone_behaves_identically : forall (I P : Type) (keq : I -> I -> bool) (hash : I -> N) (ple : P -> P -> bool) (peq : P -> P -> bool) (alloc_limit : N), ghost_indep_run_stmt keq hash ple peq alloc_limit.
+Proof. intros; apply @GhostIndep.ghost_indep_run. Qed.
+Print Assumptions C14_clone_behaves_identically.
